@@ -240,6 +240,11 @@ where
         dny += (y[i] / sk) * (y[i] / sk);
     }
 
+    // Mean squares (as in the error norms of the solvers), so that the guess does not depend on
+    // the number of components: m identical copies of a system start with the same step.
+    let dnf = dnf / n as Float;
+    let dny = dny / n as Float;
+
     let mut h: Float;
     if dnf <= 1e-10 || dny <= 1e-10 {
         h = 1.0e-6;
@@ -266,7 +271,7 @@ where
         let df = (f1[i] - f0[i]) / sk;
         der2 += df * df;
     }
-    der2 = der2.sqrt() / h.abs();
+    der2 = (der2 / n as Float).sqrt() / h.abs();
 
     let der12 = der2.abs().max(dnf.sqrt());
     let h1: Float;
